@@ -29,7 +29,7 @@ let () = run (fun case impl ->
            let sp = CrcSpec.spec_byte (n_of_hex is) b in
            if hex_of_n sp <> ir then specfail "update_step" case impl (is ^ " " ^ hex_of_n sp)
        | _ -> specfail "update_step" case impl "two numbers")
-  | ["S"; bs] ->
+  | ["S"; bs] | ["D"; bs] ->
       let bs = bytes_of_hex bs in
       let m = CrcModel.crc_of bs and sp = CrcSpec.spec_crc bs in
       count "whole"; if bs <> [] then note_nontrivial case;
